@@ -20,7 +20,8 @@ from torch import Tensor
 
 from .. import settings
 from ..distributions import MultivariateNormal
-from ..utils.memoize import add_to_cache, cached
+from ..utils.errors import CachingError
+from ..utils.memoize import add_to_cache, cached, pop_from_cache_ignore_args
 from ._variational_strategy import _VariationalStrategy
 from .cholesky_variational_distribution import CholeskyVariationalDistribution
 
@@ -151,7 +152,15 @@ class UnwhitenedVariationalStrategy(_VariationalStrategy):
 
         # Compute Cholesky factorization of inducing covariance matrix
         if settings.fast_computations.log_prob.off() or (num_induc <= settings.max_cholesky_size.value()):
-            induc_induc_covar = CholLinearOperator(self._cholesky_factor(induc_induc_covar))
+            L = self._cholesky_factor(induc_induc_covar)
+            if L.shape != induc_induc_covar.shape:
+                # A factor cached for inputs with another batch shape cannot be reused
+                try:
+                    pop_from_cache_ignore_args(self, "cholesky_factor")
+                except CachingError:
+                    pass
+                L = self._cholesky_factor(induc_induc_covar)
+            induc_induc_covar = CholLinearOperator(L)
 
         # If we are making predictions and don't need variances, we can do things very quickly.
         if not self.training and settings.skip_posterior_variances.on():
